@@ -67,7 +67,7 @@ class Build:
         rc, out = sh([GO, 'build', '-o', self.root + '/build/translate', '.'], cwd=tdir)
         if rc != 0:
             return False, 'translator build failed:\n' + out
-        rc, out = sh([self.root + '/build/translate', '-repo', '/repo', '-out', self.root + '/coq/Gen'], cwd=tdir)
+        rc, out = sh([self.root + '/build/translate', '-repo', '/repo', '-out', self.root + '/coq/Gen', '-harness', self.root + '/harness'], cwd=tdir)
         return rc == 0, out
 
     def coq(self, prop):
